@@ -83,6 +83,7 @@ class FunctionInfo:
         self.defaults = a.defaults
         self.decorators = [norm_text(d) for d in node.decorator_list]
         self.is_classmethod = "classmethod" in self.decorators
+        self.memoized = any(_is_memo_decorator(d) for d in self.decorators)
         self.is_generator = any(
             isinstance(n, (ast.Yield, ast.YieldFrom)) for n in walk_local(node)
         )
@@ -115,6 +116,14 @@ class FunctionInfo:
 
     def __repr__(self):
         return "<fn %s>" % self.qual
+
+
+MEMO_NAMES = ("lru_cache", "cache", "cached_property", "memoize", "memoized")
+
+
+def _is_memo_decorator(d: str) -> bool:
+    head = d.split("(")[0]
+    return head.split(".")[-1] in MEMO_NAMES
 
 
 def walk_local(fn_node: ast.AST) -> Iterator[ast.AST]:
@@ -509,6 +518,8 @@ class Repo:
         found = []
         for fi in self.functions():
             for d in fi.decorators:
+                if _is_memo_decorator(d):
+                    continue  # modelled: the function hands out one remembered result per argument tuple (see C20 R20.2)
                 if d not in ALLOWED_DECORATORS:
                     found.append((fi.short, "decorator:" + d, fi.where()))
             if fi.name in DYNAMIC_DEFS:
